@@ -38,6 +38,7 @@ def scenario(tier):
             r = b.run("create", root=c, h=["md5"])
             b.require(r.exit == 0, "setup-create", str(r))
         gens = sym.choose("root_generations", [1, 2, 3] if tier != "quick" else [1, 2])
+        ign = ["B"] if sym.flag("root_ignores_folder_B") else []
         for g in range(gens):
             if g == 1 and sym.flag("alter_before_gen2"):
                 b.alter("R/A/AA/aa1.txt", 33)
@@ -45,7 +46,7 @@ def scenario(tier):
             if g > 0 and sym.flag("sf%d" % g):
                 r = b.run("create", root="R", h=fm, sf=["R/A/AA/aa1.txt"])
             else:
-                r = b.run("create", root="R", h=fm)
+                r = b.run("create", root="R", h=fm, i=ign)
             b.require(r.exit in (0, 11), "setup-create", str(r))
         roots = sorted(set(layout + ["R"]))
         # ---- info on the folder
